@@ -342,6 +342,14 @@ inline void term_handler(int sig)
 	flush_current();
 	_exit(128 + sig);
 }
+// for harnesses that want SIGPIPE to be fatal (the runtime ignores it by default): the current case is saved first
+inline void pipe_handler(int sig)
+{
+	flush_current();
+	signal(sig, SIG_DFL);
+	raise(sig);
+}
+inline void die_on_sigpipe() { signal(SIGPIPE, pipe_handler); }
 inline void set_current_text(const std::string& part, const std::string& text)
 {
 	Current& c = current();
